@@ -85,6 +85,9 @@ func TestPropSequential(t *testing.T) {
 				})
 			}
 		}
+		if len(r.NoReplyPubs) > 0 {
+			t.Fatalf("a message without reply subject (not a request) made the service publish %q\ncase: %s", r.NoReplyPubs, c)
+		}
 		if !r.ProbeOK {
 			t.Fatalf("service no longer answers a plain get after the case (a handler took it down?)\ncase: %s\nerrors: %v", c, r.Errors)
 		}
